@@ -113,7 +113,7 @@ def run_pairs(ctx, n):
               'rule audited {\n  tls.min >= 2 <<tls too old>>\n}\nrule listener {\n  when service.name exists {\n    audited <<not audited>>\n    service.ports[*] < 10000\n  }\n}\nrule listener2 {\n  audited <<not audited>>\n}\n'):
         pairs.append({'rules': r, 'data': json.dumps(svc)})
     for i in range(n):
-        doc, prog = gen.gen_pair(rng, {'cycles': 0.0})
+        doc, prog = gen.gen_pair(rng, {'cycles': 0.0, 'star_filter': 0.5} if i % 3 == 2 else {'cycles': 0.0})   # every third program may write list[*][ filter ]
         pairs.append({'rules': gen.render_file(prog), 'data': json.dumps(doc)})
     ops = [{'op': 'eval', 'rules': p['rules'], 'data': p['data'], 'loader': 'lib', 'public': True} for p in pairs]
     res = impl.run_ops_parallel(ops, ctx.wd, 'c09eval')
